@@ -775,6 +775,16 @@ package http2
 //@ requires kind: 0 <= ftype && ftype <= 9
 //@ # (only the object taken from the pool is written: nothing the caller can already reach changes)
 //@ ensures typed: r0 != nil && frameTypeOK(r0, ftype)
+//@ # the body comes out of its pool (nobody else holds it) and has been Reset: nothing of its previous use is left
+//@ ensures own: (typeis(r0, *Data) ==> fresh(as(r0, *Data))) && (typeis(r0, *Headers) ==> fresh(as(r0, *Headers))) &&
+//@ |   (typeis(r0, *Priority) ==> fresh(as(r0, *Priority))) && (typeis(r0, *RstStream) ==> fresh(as(r0, *RstStream))) &&
+//@ |   (typeis(r0, *Settings) ==> fresh(as(r0, *Settings))) && (typeis(r0, *PushPromise) ==> fresh(as(r0, *PushPromise))) &&
+//@ |   (typeis(r0, *Ping) ==> fresh(as(r0, *Ping))) && (typeis(r0, *GoAway) ==> fresh(as(r0, *GoAway))) &&
+//@ |   (typeis(r0, *WindowUpdate) ==> fresh(as(r0, *WindowUpdate))) && (typeis(r0, *Continuation) ==> fresh(as(r0, *Continuation)))
+//@ ensures clean: (typeis(r0, *Headers) ==> as(r0, *Headers).stream == 0 && !as(r0, *Headers).priority && !as(r0, *Headers).endStream && !as(r0, *Headers).endHeaders && !as(r0, *Headers).hasPadding) &&
+//@ |   (typeis(r0, *Data) ==> !as(r0, *Data).endStream && !as(r0, *Data).hasPadding && len(as(r0, *Data).b) == 0) &&
+//@ |   (typeis(r0, *Settings) ==> !as(r0, *Settings).ack && !as(r0, *Settings).hasWindowSize && len(as(r0, *Settings).rawSettings) == 0) &&
+//@ |   (typeis(r0, *Ping) ==> !as(r0, *Ping).ack) && (typeis(r0, *Continuation) ==> !as(r0, *Continuation).endHeaders)
 
 //@ func ReleaseFrame
 //@ props C16 C17
@@ -895,6 +905,8 @@ package http2
 //@ # RFC 7540 6.9: an increment is 1..2^31-1; 0 is a protocol error at the peer
 //@ requires inc: 1 <= inc && inc <= 2147483647
 //@ opt noframe=true
+//@ # what goes out is a WINDOW_UPDATE frame for that stream (0: the connection) with exactly that increment
+//@ assert@call:(*serverConn).write#1 frame: arg1 != nil && arg1.stream == id && typeis(arg1.fr, *WindowUpdate) && as(arg1.fr, *WindowUpdate).increment == inc
 
 //@ func (*serverConn).consumeRecvWindow
 //@ props C14 C09
@@ -1039,9 +1051,11 @@ package http2
 //@ requires args: sc != nil && fr != nil && fr.fr != nil
 
 //@ func (*serverConn).writeReset
-//@ props C09 C10
+//@ props C09 C10 C08
 //@ requires recv: scOK(sc)
 //@ opt noframe=true
+//@ # what goes out is an RST_STREAM frame for that stream with that code
+//@ assert@call:(*serverConn).write#1 frame: arg1 != nil && arg1.stream == strm && typeis(arg1.fr, *RstStream) && as(arg1.fr, *RstStream).code == code
 
 //@ func (*serverConn).closeBodyStream
 //@ props C06
@@ -1315,9 +1329,12 @@ package http2
 // ---- the read loop: frame sequencing around header blocks (RFC 7540 6.2, 6.10) and hand-off to the stream loop ----
 
 //@ func (*serverConn).handlePing
-//@ props C17
+//@ props C17 C08
 //@ requires args: scOK(sc) && ping != nil
 //@ opt noframe=true
+//@ # RFC 7540 6.7: a PING is answered on stream 0 by a PING with ACK carrying the same eight octets, on a frame of its own
+//@ assert@call:(*serverConn).write#1 pong: arg1 != nil && typeis(arg1.fr, *Ping) && as(arg1.fr, *Ping) != ping && as(arg1.fr, *Ping).ack &&
+//@ |   forall(i, 0, 8, as(arg1.fr, *Ping).data[i] == ping.data[i])
 
 //@ func (*serverConn).readLoop
 //@ props C08 C18 C16 C17 C10
